@@ -1,0 +1,121 @@
+//go:build verif
+
+package orefafs
+
+import (
+	"encoding/hex"
+	"fmt"
+	"io/fs"
+	"sort"
+	"strings"
+)
+
+func verifHex(s string) string {
+	if s == "" {
+		return "-"
+	}
+
+	return hex.EncodeToString([]byte(s))
+}
+
+// verifPerm converts a fs.FileMode to the 12 Linux permission bits.
+func verifPerm(m fs.FileMode) uint32 {
+	p := uint32(m.Perm())
+	if m&fs.ModeSticky != 0 {
+		p |= 0o1000
+	}
+
+	if m&fs.ModeSetgid != 0 {
+		p |= 0o2000
+	}
+
+	if m&fs.ModeSetuid != 0 {
+		p |= 0o4000
+	}
+
+	return p
+}
+
+// VerifDump returns the node graph in the format of MemFS.VerifDump: nodes numbered by first visit (depth first from
+// the root, children in name order), one token per node
+//
+//	k:d|f:perm:uid:gid:m<mtime>:nlink:id:data[name>j,...]
+//
+// (the bracket part is `[nil]` for a directory whose children map is nil and is omitted for a file whose children map
+// is nil), followed by one token `index:path=j,...` listing the index map vfs.nodes sorted by path. Nodes that are only
+// reachable from the index are visited (and numbered) after the tree, in index order (verification hook, read only).
+func (vfs *OrefaFS) VerifDump() string {
+	vfs.mu.RLock()
+	defer vfs.mu.RUnlock()
+
+	seen := map[*node]int{}
+	var lines []string
+
+	var visit func(nd *node)
+	visit = func(nd *node) {
+		if _, ok := seen[nd]; ok || nd == nil {
+			return
+		}
+
+		me := len(seen)
+		seen[nd] = me
+		idx := len(lines)
+		lines = append(lines, "")
+
+		nd.mu.RLock()
+		kind := "f"
+		if nd.mode.IsDir() {
+			kind = "d"
+		}
+
+		line := fmt.Sprintf("%d:%s:%o:%d:%d:m%d:%d:%d:%s", me, kind, verifPerm(nd.mode), nd.uid, nd.gid, nd.mtime,
+			nd.nlink, nd.id, verifHex(string(nd.data)))
+		isNil := nd.children == nil
+		kids := make(children, len(nd.children))
+		names := make([]string, 0, len(nd.children))
+
+		for n, c := range nd.children {
+			kids[n] = c
+			names = append(names, n)
+		}
+		nd.mu.RUnlock()
+
+		sort.Strings(names)
+
+		for _, n := range names {
+			visit(kids[n])
+		}
+
+		ents := make([]string, 0, len(names))
+		for _, n := range names {
+			ents = append(ents, fmt.Sprintf("%s>%d", verifHex(n), seen[kids[n]]))
+		}
+
+		switch {
+		case !isNil:
+			line += "[" + strings.Join(ents, ",") + "]"
+		case kind == "d":
+			line += "[nil]"
+		}
+
+		lines[idx] = line
+	}
+
+	visit(vfs.nodes[""])
+
+	paths := make([]string, 0, len(vfs.nodes))
+	for p := range vfs.nodes {
+		paths = append(paths, p)
+	}
+
+	sort.Strings(paths)
+
+	index := make([]string, 0, len(paths))
+
+	for _, p := range paths {
+		visit(vfs.nodes[p])
+		index = append(index, fmt.Sprintf("%s=%d", verifHex(p), seen[vfs.nodes[p]]))
+	}
+
+	return "dump " + strings.Join(lines, " ") + " index:" + strings.Join(index, ",")
+}
